@@ -149,6 +149,19 @@ class HilbertClimateNetwork(ClimateNetwork):
             if directed:
                 self.adjacency = self.adjacency * (self.phase_shift() > 0)
 
+    def set_threshold(self, threshold):
+        """
+        Generate climate network by thresholding the coherence matrix.
+
+        For a directed Hilbert network the link directions are taken from the
+        phase shifts again, as at construction.
+
+        :arg float threshold: the threshold used to generate the current
+            climate network.
+        """
+        ClimateNetwork.set_threshold(self, threshold)
+        self._set_directed(self.directed, calculate_coherence=False)
+
     def set_directed(self, directed):
         """
         Switch between directed and undirected Hilbert climate network.
